@@ -2,7 +2,7 @@
 # tools/try_seed.sh <dir with patch.diff> <check[,check]> [tier] : run check(s) against a scratch copy of /repo HEAD + patch
 d=$(readlink -f $1); checks=$2; tier=${3:-quick}
 s=/var/tmp/tryseed-$$; rm -rf $s; mkdir -p $s
-git -C /repo archive HEAD | tar -x -C $s
+git -C /repo archive ${SEED_BASE:-HEAD} | tar -x -C $s
 (cd $s && git apply --whitespace=nowarn $d/patch.diff) || { echo "patch does not apply"; rm -rf $s; exit 2; }
 for c in ${checks//,/ }; do
   ESUTIL_VERIF_REPO=$s VERIF_EVIDENCE_DIR=/var/tmp/tryseed-evidence /verif/check $c --tier $tier 2>&1 | grep -a -E "^\[|class |VIOLATION|OK tier|KNOWN" | tail -${TAILN:-14}
